@@ -804,7 +804,9 @@ def forall(lo, hi, fn):
             r = both(r, fn(j))
         return r
     st = cur()
-    if st.capture is None:
+    if st.capture is None and getattr(st.cfg, "forall_range_check", True):
+        # (a shortcut only: an empty range gives a vacuous quantifier anyway; a contract whose path conditions
+        # are quantifier-heavy switches it off with `forall_range_check = False` because the check itself is slow)
         if st.qf_refutes(_z(lo) < _z(hi)):
             return True  # empty range on this path (refuted by the quantifier-free part of the path condition alone)
         if st.n_quantified and not st.cfg.qf_branching and not getattr(st.cfg, "qf_forall_only", False):
